@@ -8,7 +8,7 @@ ALLOWED_AXIOMS = {"Classical_Prop.classic", "ClassicalDedekindReals.sig_not_dec"
                   "ClassicalDedekindReals.sig_forall_dec",
                   "FunctionalExtensionality.functional_extensionality_dep"}
 MANIFEST = {
-    "text": 'Coq theorems over the broker model: actuate either fails without any effect or delivers exactly one request, value unchanged, to the registered, available, unexpired provider that claimed the id after all checks passed; batch_actuate forwards nothing unless every element passes every check and every addressed actuator has a live owner, and then forwards a permutation of the requested changes; stored values are never altered. Tied to the code by histories with several recording providers, duplicates, unknown ids, sensors, invalid values, partial permissions, provider loss and expiry, comparing every provider inbox after every operation, plus scripted routing scenarios (2-3 providers with disjoint actuator sets, one lost and not yet removed by housekeeping, batches naming live / lost / unowned actuators, a sensor, unknown ids and ill-typed values in every position); an all-or-nothing / exactly-once / right-owner monitor judges the implementation. Second part: kuksa.val.v2 OpenProviderStream on the real tonic server of the databroker (loopback): providers claim through ProvideActuationRequest (identifiers by id, by path, mixed), the BatchActuateStreamRequests arriving on the real streams are the inboxes the clauses judge, providers publish through PublishValuesRequest; modelled by Api.v2_provide / Api.v2_stream_publish (theorems c09_stream_claim_is_core, c09_stream_claim_refused_no_effect, c09_stream_publish_is_core).',
+    "text": 'Coq theorems over the broker model: actuate either fails without any effect or delivers exactly one request, value unchanged, to the registered, available, unexpired provider that claimed the id after all checks passed; batch_actuate forwards nothing unless every element passes every check and every addressed actuator has a live owner, and then forwards a permutation of the requested changes; stored values are never altered. Tied to the code by histories with several recording providers, duplicates, unknown ids, sensors, invalid values, partial permissions, provider loss and expiry, comparing every provider inbox after every operation, plus scripted routing scenarios (2-3 providers with disjoint actuator sets, one lost and not yet removed by housekeeping, batches naming live / lost / unowned actuators, a sensor, unknown ids and ill-typed values in every position); an all-or-nothing / exactly-once / right-owner monitor judges the implementation. Second part: kuksa.val.v2 OpenProviderStream on the real tonic server of the databroker (loopback): providers claim through ProvideActuationRequest (identifiers by id, by path, mixed), the BatchActuateStreamRequests arriving on the real streams are the inboxes the clauses judge, providers publish through PublishValuesRequest; modelled by Api.v2_provide / Api.v2_stream_publish (theorems c09_stream_claim_is_core, c09_stream_claim_refused_no_effect, c09_stream_publish_is_core). Also: actuation through the kuksa.val.v2 Actuate / BatchActuate handlers with identifiers by id and by path mixed (c09_handler_batch_pairs: element k of the core batch is the id element k names with the value element k carries; c09_handler_batch_served, c09_handler_batch_refused_no_effect, c09_handler_actuate_served); twin values (the same number in another kind) for one actuator in one batch; a provider behind the OpenProviderStream handler called in process that reads its stream lazily (the 10-slot channel fills up: requests wait for room, they are not dropped).',
     "note": "Trusted: Coq kernel; the 4 standard-library axioms that enter through Flocq (used by validate's float comparisons) as printed by Print Assumptions; extraction + OCaml driver (vm_compute cross-check each run); harness/src/fam_hist.rs and hook H3 (verif_housekeeping_step); the Python monitors. Modelled, not verified: tokio broadcast (ring with capacity rounded up to a power of two, Lagged skipping) and RwLock, HashMap iteration order (outputs are sorted), the gRPC handlers on top of AuthorizedAccess (exercised by the handler-level checks), SystemTime (a timestamp is canonicalised to the operation during which it was taken; expiry is crossed in real time at a TICK).",
 }
 PROPS = set("C09,C02".split(","))
